@@ -1,5 +1,5 @@
 """Static text for MANIFEST.json (see gen_manifest.py)."""
-CLAIMED = ["C01", "C02", "C03", "C04", "C05", "C06", "C07", "C08", "C10", "C11", "C12", "C13", "C14", "C16", "C18"]
+CLAIMED = ["C01", "C02", "C03", "C04", "C05", "C06", "C07", "C08", "C10", "C11", "C12", "C13", "C14", "C15", "C16", "C18", "C19"]
 
 NOTES = ("All checks are seeded searches (VERIF_SEED) over generated worlds executed end-to-end by the "
          "unmodified simulator under monitors; see DESIGN.md. Exit 0 = held (KNOWN-FINDING lines allowed), "
@@ -19,7 +19,13 @@ _NOTE = ("Trusted base: the harness (world generator, monitors, reference ledger
 
 
 def _t(level, technique, ref="DESIGN.md section 4", note=_NOTE):
-    return {"level": level, "technique": technique, "ref": ref, "note": note}
+    return {"level": level, "technique": technique, "ref": ref, "note": note    "C19": _t("Seeded generation of descriptions rendered as YAML/JSON and loaded by the real loaders, compared "
+              "field by field with the spec; release times per policy, fresh isomorphic copies per invocation and "
+              "deadline = release + critical-path/SLO base stretched within variance and bounds (base recomputed by "
+              "path enumeration). Only the closed-loop clause depends on the run and is checked at every event "
+              "boundary of simulated runs under completing and cancelling policies.",
+              "deterministic simulation for the closed-loop clause (in-flight bound at every event boundary under cancelling policies); spec-vs-loaded-object comparison at world construction for the rest"),
+}
 
 
 TEXT = {
@@ -86,6 +92,12 @@ TEXT = {
               "offered task of a TetriSched plan is tested against every (slot, worker, strategy) of the planner's own "
               "published decision space (maximality). The ILP goodput half is not implemented yet.",
               "deterministic simulation: exhaustive tiny reference planner at each invocation of a real run"),
+    "C15": _t("Seeded exploration of Clockwork runs (1-3 models with several batch-size strategies, pre-loaded or "
+              "loaded by the policy, fixed/poisson/gamma/closed-loop request arrival, SLOs around the boundary, both "
+              "goals); every schedule() return is grouped by BatchStrategy and checked (one model, size == batch size, "
+              "model loaded on the live worker, worker can hold it, now + runtime <= earliest deadline), each request "
+              "placed at most once over the run, hopeless requests cancelled not placed.",
+              "deterministic simulation: per-invocation batch oracle + whole-run at-most-once over stateful request queues"),
     "C16": _t("Seeded operation histories on EventQueue (add / next / remove / in-place re-timing + reheapify / peek / "
               "next-of-type) against a sorted-list reference with the documented (time, type priority, task name) "
               "order, EventTime algebra sampled along the histories against integer microseconds, and the same "
